@@ -209,17 +209,19 @@ PROPS = {
         suites=[("overlay", "v17")],
         level_text="The policy gate in front of init/add/update is modelled with the zxcvbn estimate as a parameter: "
                    "store_change_implies_policy, refusal_changes_nothing, policy_ok_not_refused; condition_parser_exact "
-                   "characterises newZXCVBNPolicy; bad_policy_stops_agent. Against the code: the real parser and "
+                   "characterises newZXCVBNPolicy over a model of strings.Fields that is exact for every Go string (Unicode white "
+                   "space, invalid UTF-8; fields_are_words, fields_fuel_irrelevant, parsed_condition_has_three_words); "
+                   "bad_policy_stops_agent. Against the code: the real parser and "
                    "NewStore on ~500 condition strings x 5 policy types; all write paths (agent interface, HTTP add, "
                    "HTTP update by admin / by the user's session / by old password, CLI binary add/update/init) on real "
                    "agents with thresholds placed around the observed estimate, compared with zxcvbn-go called directly.",
         rule="Condition strings from a grammar mutator (kinds, operators, thresholds incl. 2^64-1/2^64/negative/float, "
-             "ASCII white-space variants, extra fields); 6 (40) agents x 60 (300) writes of 51 passwords (dictionary "
+             "ASCII and Unicode white-space variants incl. every white-space rune, near misses, truncated and overlong "
+             "spellings, extra fields); 6 (40) agents x 60 (300) writes of 51 passwords (dictionary "
              "words, user-name derived, strong, 257..400-byte weak runs, and transformation-sensitive ones: a weak body with a dictionary word "
              "straddling byte 8..128, a weak run followed by a strong tail, white-space / case / NUL variants) through "
              "10 write paths.",
         trusted=["zxcvbn-go's estimate (score, entropy, crack time) is a parameter of the model", T_CRYPTO],
-        partial=["strings.Fields splits on Unicode white space; the model (and the generator) use ASCII white space"],
     ),
     "C18": dict(
         modules=["Whawty.Props.C18", "Whawty.Props.C18Reload"],
